@@ -37,6 +37,21 @@ type RT struct {
 	maxNap  time.Duration
 	base    time.Time
 	baseNs  int64
+	park    *parkRule
+}
+
+// parkRule: the FIRST goroutine that reaches Point waits there until ANOTHER goroutine passes
+// Point with the same first key, or Timeout.  In the unchanged code the rule is infeasible for
+// points inside the critical section (the first goroutine holds the lock): it times out.
+type parkRule struct {
+	point   string
+	timeout time.Duration
+	used    bool
+	g       int64
+	key     string
+	ch      chan struct{}
+	passed  bool
+	over    bool // the first goroutine gave up waiting
 }
 
 // ParseMono extracts the monotonic reading (ns) from time.Time.String().
@@ -95,7 +110,31 @@ func (r *RT) Begin(repo string, caseSeed int64, p float64, maxNap time.Duration)
 	r.seed = caseSeed
 	r.p = p
 	r.maxNap = maxNap
+	r.park = nil
 	r.mu.Unlock()
+}
+
+// Park arms the forced-overlap rule for the current case (see parkRule).
+func (r *RT) Park(point string, timeout time.Duration) {
+	r.mu.Lock()
+	r.park = &parkRule{point: point, timeout: timeout, ch: make(chan struct{})}
+	r.mu.Unlock()
+}
+
+// ParkResult: "" no rule, "unused", "achieved" (another goroutine got to the point while the first
+// one was still there) or "infeasible" (timed out).
+func (r *RT) ParkResult() string {
+	r.mu.Lock()
+	defer r.mu.Unlock()
+	switch {
+	case r.park == nil:
+		return ""
+	case !r.park.used:
+		return "unused"
+	case r.park.passed:
+		return "achieved"
+	}
+	return "infeasible"
 }
 
 func (r *RT) Register(tid int) {
@@ -138,6 +177,24 @@ func (r *RT) at(point string, keys []string) {
 		tid = -1
 	}
 	r.log = append(r.log, Event{Seq: len(r.log), Tid: tid, Point: point, Keys: append([]string(nil), keys[1:]...), Ns: r.Now()})
+	if pk := r.park; pk != nil && point == pk.point && len(keys) > 1 {
+		if !pk.used {
+			pk.used, pk.g, pk.key = true, g, keys[1]
+			ch, to := pk.ch, pk.timeout
+			r.mu.Unlock()
+			select {
+			case <-ch:
+			case <-time.After(to):
+				r.mu.Lock()
+				pk.over = true
+				r.mu.Unlock()
+			}
+			return
+		} else if !pk.passed && !pk.over && g != pk.g && keys[1] == pk.key {
+			pk.passed = true
+			close(pk.ch)
+		}
+	}
 	var nap time.Duration
 	yield := false
 	if r.p > 0 {
